@@ -164,7 +164,16 @@ func (ob *observer) one(hi int) {
 			ob.expectValue("Go:Get", hi, k, want, present, nil, fmt.Errorf("not found"))
 		}
 	}
-	// isAvail with all keys of the model at once, and with one missing key added
+	// isAvail with a present and a missing key: false (reported on the missing key)
+	if ks := mod.keys(); len(ks) > 0 {
+		for _, k := range probes {
+			if _, ok := mod[k]; !ok {
+				r, err := e.call(e.gen("m.isAvail(k0,k1)", "m", "k0", "k1"), m, value.String(ks[0]), value.String(k))
+				ob.expectBool("isAvail", hi, k, nil, false, r, err)
+			}
+		}
+	}
+	// isAvail with all keys of the model at once
 	if ks := mod.keys(); len(ks) >= 2 && len(ks) <= 4 {
 		args := []value.Value{m}
 		names := []string{"m"}
@@ -376,6 +385,8 @@ func (ob *observer) one(hi int) {
 			v[k] = iv(3 - old.I) // 1 <-> 2
 		case 'f':
 			v[k] = mv{K: 'f', F: old.F + 1}
+		case 'b':
+			v[k] = mv{K: 'b', I: 1 - old.I}
 		default:
 			v[k] = mv{K: 's', S: old.S + "x"}
 		}
